@@ -2,7 +2,8 @@
 
 use super::Mesh;
 use crate::common::indices::chained_indices;
-use crate::{Curve3, Iso3, Plane3, Point3, SurfacePoint3};
+use crate::geom3::UnitVec3;
+use crate::{Curve3, Iso3, Plane3, Point3, SurfacePoint3, Vector3};
 use parry3d_f64::query::{IntersectResult, PointProjection, PointQueryWithLocation, SplitResult};
 use parry3d_f64::shape::TrianglePointLocation;
 use std::f64::consts::PI;
@@ -14,7 +15,12 @@ impl Mesh {
             .project_local_point_and_get_location(point, self.is_solid);
         let (projection, (tri_id, _location)) = result;
         let triangle = self.shape.triangle(tri_id);
-        let normal = triangle.normal().unwrap(); // When could this fail? On a degenerate tri?
+        // A face without area (collinear or repeated vertices) has no normal of its own: the
+        // closest point is still right, and the direction towards the query is normal to the
+        // segment the face has collapsed to.
+        let normal = triangle.normal().unwrap_or_else(|| {
+            UnitVec3::try_new(point - projection.point, 1e-12).unwrap_or(Vector3::z_axis())
+        });
         SurfacePoint3::new(projection.point, normal)
     }
 
